@@ -1,6 +1,6 @@
 """C17 - freeze: scope-model agreement with the evaluator, identity rewrite, every child frozen, guarded folds."""
 import re
-from .core import (CheckError, find_match, arm_region, pat_str, strip_ref, origins, only_when, pat_paths,
+from .core import (scope_constructors, CheckError, find_match, arm_region, pat_str, strip_ref, origins, only_when, pat_paths,
                    Registry, op_local, bool_switches)
 
 META = {
@@ -75,7 +75,7 @@ def run(F, rep, tier):
         regn = set()
         for i in idxs:
             regn |= arm_region(F, eb, me, i)
-        if any(c.target == 'core::Env::with_parent' for c in eb.calls_in(regn)):
+        if any(c.target in scope_constructors(F) for c in eb.calls_in(regn)):
             eval_scoped.add(v)
     eval_scoped |= {'For', 'Lambda'}   # through evaluate_for and Closure::run (decided by C05 R5.1/R5.2)
     fregions = {}
